@@ -331,6 +331,33 @@ theorem settled_new_canonical (b mc : Nat) {cs : List Bytes}
       simp only [Parser.new, List.length_nil]; omega),
     settled_singles _ _ cs (new_inv b mc) hl rfl⟩
 
+/-! ### The same for `feed` of `C03Req` (calls continue after completion) -/
+
+/-- If the caller keeps calling after completion (all calls legal), the parser ends up as
+`settled` says: later calls only append to the unread input (`final_sticky_feed`). -/
+theorem feed_eq_settled : ∀ (cs : List Bytes) (p : Parser), PInv p → Legal p cs →
+    feed p cs = (settled p cs).1 := by
+  intro cs
+  induction cs with
+  | nil => intro p _ _; cases p; simp [feed, settled, feedAll]
+  | cons c cs ih =>
+    intro p hp hl
+    cases hf : p.state.isFinal with
+    | true => rw [final_sticky_feed _ hp hf hl, settled_final hf]
+    | false =>
+      obtain ⟨y, hy, hp'⟩ := parse_total hp hl.1
+      have hpar : p.parse c = ((p.parse c).1, some y) := by rw [← hy]
+      rw [settled_cons cs hf hpar]
+      exact ih _ hp' hl.2
+
+/-- Chunk invariance for `feed`: two sequences of legal calls with non-empty inputs carrying the
+same bytes leave the same parser. -/
+theorem feed_chunk_invariance {p : Parser} {cs cs' : List Bytes} (hp : PInv p) (hl : Legal p cs)
+    (hl' : Legal p cs') (hne : ∀ c ∈ cs, c ≠ []) (hne' : ∀ c ∈ cs', c ≠ [])
+    (hw : cs.flatten = cs'.flatten) : feed p cs = feed p cs' := by
+  rw [feed_eq_settled cs p hp hl, feed_eq_settled cs' p hp hl',
+    chunk_invariance hp (legalFeed_of_legal hl hne) (legalFeed_of_legal hl' hne') hw]
+
 /-! ## 3. The leftover is the unread suffix -/
 
 theorem feedAll_done_run {r : Request} : ∀ (cs : List Bytes) (p : Parser), PInv p → LegalFeed p cs →
@@ -568,6 +595,101 @@ example : runChunks .header 1 [wire.take 19, (wire.drop 19).take 7, wire.drop 26
   have hfl : ([wire.take 19, (wire.drop 19).take 7] ++ [wire.drop 26]).flatten = wire := by decide
   rw [hfl, run_wire] at h
   exact h
+
+/-! ### `request::Parser`: `Parser::new` with the minimal 24-byte buffer -/
+
+def p0 : Parser := { cap := 24, input := [], state := .header, maxConns := 1 }
+def p1 : Parser := { cap := 24, input := [1, 4, 0], state := .params i0 0 0, maxConns := 1 }
+def p2 : Parser := { cap := 24, input := [], state := .done req, maxConns := 1 }
+theorem new01 : Parser.new 0 1 = p0 := by decide
+theorem p0_inv : PInv p0 := new01 ▸ C03.new_inv 0 1
+theorem p1_inv : PInv p1 := ⟨by decide, wf_i0 0 (by decide), by decide⟩
+
+/-- First call: 19 bytes, cut inside the Params record header. -/
+theorem parse_a : p0.parse (wire.take 19) = (p1, some { done := false, output := [] }) := by
+  have hr : run p0.state (p0.input ++ wire.take 19) p0.maxConns =
+      { rem := [1, 4, 0], st := .params i0 0 0, out := [] } := run_cut_header
+  rw [parse_unstuck p0_inv (by decide) (Or.inr (by rw [hr]; decide)), hr]
+  rfl
+
+theorem parse_b : p1.parse (wire.drop 19) = (p2, some { done := true, output := [] }) := by
+  have hr : run p1.state (p1.input ++ wire.drop 19) p1.maxConns =
+      { rem := [], st := .done req, out := [] } := run_params
+  rw [parse_unstuck p1_inv (by decide) (Or.inl (by rw [hr]; rfl)), hr]
+  rfl
+
+theorem legal_A : LegalFeed p0 [wire.take 19, wire.drop 19] :=
+  Or.inr ⟨by decide, by decide, by
+    rw [parse_a]; exact Or.inr ⟨by decide, by decide, trivial⟩⟩
+
+theorem outcome_A : outcome p0 [wire.take 19, wire.drop 19] = (.ok (req, []), []) := by
+  have h1 : settled p0 [wire.take 19, wire.drop 19] = (p2, []) := by
+    rw [settled_cons _ rfl parse_a, settled_cons _ rfl parse_b, settled_final rfl]
+    rfl
+  simp only [outcome, h1]
+  rfl
+
+/-- `chunk_invariance` instantiated: hence feeding the 39 bytes one at a time (legal by
+`legalFeed_singles`) yields the same request, no leftover, no output. -/
+example : outcome p0 (singles wire) = (.ok (req, []), []) := by
+  rw [← outcome_A]
+  exact (chunk_invariance_outcome p0_inv legal_A
+    (legalFeed_singles _ _ p0_inv (fun _ => by decide)) (by rw [flatten_singles]; decide)).symm
+
+/-- Params record announcing 100 bytes; its first pair announces a 50-byte name and a 40-byte value -/
+def bighdr : Bytes := [1, 4, 0, 1, 0, 100, 0, 0]
+def big : Bytes := [50, 40] ++ List.replicate 22 0x61
+def p3 : Parser := { cap := 24, input := [], state := .params i0 100 0, maxConns := 1 }
+def p4 : Parser := { cap := 24, input := big, state := .fatal .stuckOnInput, maxConns := 1 }
+theorem p3_inv : PInv p3 := ⟨by decide, wf_i0 100 (by decide), by decide⟩
+
+theorem run_big_hdr : run .header (begin_ ++ bighdr) 1 = { rem := [], st := .params i0 100 0, out := [] } := by
+  have h : step .header (begin_ ++ bighdr) 1 = (.cont bighdr (.params i0 0 0), []) := by decide
+  have h2 : step (.params i0 0 0) bighdr 1 = (.cont [] (.params i0 100 0), []) := by decide
+  rw [run_cont wf_header h (by decide), run_cont_empty h2]; rfl
+
+theorem parseStream_big : parseStream i0 big false = .ok i0 0 := by
+  rw [parseStream_eq i0 _ false (by decide)]
+  have h1 : NV.next (i0.buffer ++ big) = none := by decide
+  have h2 : stall i0.buffer.length (i0.buffer ++ big) = 0 := by decide
+  simp only [psSpec, Bool.false_eq_true, if_false, h1, if_true, h2]
+  rfl
+
+theorem run_big : run (.params i0 100 0) big 1 = { rem := big, st := .params i0 100 0, out := [] } := by
+  refine run_brk rfl ?_
+  rw [step_params, paramsDrive_eq, payloadPhase_lt (by decide) (by decide) parseStream_big]
+  rfl
+
+theorem parse_c1 : p0.parse (begin_ ++ bighdr) = (p3, some { done := false, output := [] }) := by
+  have hr : run p0.state (p0.input ++ (begin_ ++ bighdr)) p0.maxConns =
+      { rem := [], st := .params i0 100 0, out := [] } := run_big_hdr
+  rw [parse_unstuck p0_inv (by decide) (Or.inr (by rw [hr]; decide)), hr]
+  rfl
+
+theorem parse_c2 : p3.parse big = (p4, some { done := true, output := [] }) := by
+  have hr : run p3.state (p3.input ++ big) p3.maxConns =
+      { rem := big, st := .params i0 100 0, out := [] } := run_big
+  rw [parse_eq p3_inv (by decide), hr]
+  rfl
+
+theorem legal_S : LegalFeed p0 [begin_ ++ bighdr, big] :=
+  Or.inr ⟨by decide, by decide, by
+    rw [parse_c1]; exact Or.inr ⟨by decide, by decide, trivial⟩⟩
+
+theorem outcome_S : outcome p0 [begin_ ++ bighdr, big] = (.error .stuckOnInput, []) := by
+  have h1 : settled p0 [begin_ ++ bighdr, big] = (p4, []) := by
+    rw [settled_cons _ rfl parse_c1, settled_cons _ rfl parse_c2, settled_final rfl]
+    rfl
+  simp only [outcome, h1]
+  rfl
+
+/-- `chunk_invariance` instantiated on a feeding that ends in `StuckOnInput` (the second call
+fills the 24-byte buffer with a pair that cannot be consumed before all of its 92 bytes are
+there): the byte-by-byte feeding reports the same error. -/
+example : outcome p0 (singles (begin_ ++ bighdr ++ big)) = (.error .stuckOnInput, []) := by
+  rw [← outcome_S]
+  exact (chunk_invariance_outcome p0_inv legal_S
+    (legalFeed_singles _ _ p0_inv (fun _ => by decide)) (by rw [flatten_singles]; decide)).symm
 
 end Examples
 
